@@ -278,6 +278,15 @@ class Probe(BaseAlgorithm):
         o["dc_k"] = i.get_demand_charge(k)
         o["rel"] = list(i.get_prices(n, start=t + 1))
         self.obs.append(o)
+        # a scheduler may normalise / rescale the vectors it was handed: later answers must not
+        # be affected by what it does to them
+        for start in (None, 0, k, t + 1):
+            v = i.get_prices(n, start=start)
+            try:
+                v *= 0.0
+                v += 7.77
+            except (TypeError, ValueError):
+                pass
         return {s.station_id: [self.spec["pilot"]] for s in active_sessions}
 
 
